@@ -74,6 +74,20 @@ def eval_case(case):
                         if df:
                             out.append(O.V("a backward run on an already simulated project differs from the backward run of a fresh one",
                                            "C09/backward-after-forward", df[:3]))
+    # (iii'') the model edited between two calls (a skill, a work amount, a cost, an absence list, a new
+    # dependency, a new worker): the second run equals the run of a freshly built edited model
+    if case.get("edit_probe") and tr1[-1]["exc"] is None:
+        e = case["edit_probe"]
+        op = case["ops"][0]
+        if op.get("init_state", True) and op.get("init_log", True):
+            bE, trE = sim.run_ops(case, want_snaps=False, ops=[op, {"op": "edit", "edit": e}, op])
+            c2 = sim.edited_case(case, e)
+            bF, trF = sim.run_ops(c2, want_snaps=False, ops=[op])
+            if all(r["exc"] is None for r in trE) and trF[0]["exc"] is None:
+                df = O.dump_diff(trE[2]["dump"], trF[0]["dump"])
+                if df:
+                    out.append(O.V("after the model was edited between two calls the second run differs from the run of a freshly built edited model",
+                                   "C09/edit/" + e["kind"], {"edit": e, "diff": df[:3]}))
     # (iv) hidden state outside the object: default-argument call, log edit, default-argument call on a new object
     if case.get("defaults_probe"):
         ops = [{"op": "simulate_default", "max_time": 40}]
@@ -89,6 +103,57 @@ def eval_case(case):
             "summary": {"status": (d1 or {}).get("status"), "time": (d1 or {}).get("time")}}
 
 
+def gen_edit(rng, c):
+    """one edit of the model that keeps it well formed"""
+    from fractions import Fraction
+    nt = len(c["tasks"])
+    teams = [(ti, j) for ti, tm in enumerate(c["teams"]) for j in range(len(tm["workers"]))]
+    kinds = ["work", "rate"]
+    if teams:
+        kinds += ["skill", "skill", "cost", "wabs"]
+    if c["teams"]:
+        kinds.append("add_worker")
+    if nt >= 2:
+        kinds.append("edge")
+    k = rng.choice(kinds)
+    if k == "skill":
+        ti, j = rng.choice(teams)
+        return {"kind": k, "team": ti, "j": j, "name": c["tasks"][rng.randrange(nt)]["name"], "val": rng.choice(["2/1", "1/2", "0/1", "1/1", "3/2"])}
+    if k == "work":
+        return {"kind": k, "t": rng.randrange(nt), "val": rng.choice(["1/1", "3/1", "5/2", "1/2", "4/1"])}
+    if k == "rate":
+        return {"kind": k, "t": rng.randrange(nt), "val": rng.choice(["1/1", "2/1", "1/2"])}
+    if k == "cost":
+        ti, j = rng.choice(teams)
+        return {"kind": k, "team": ti, "j": j, "val": rng.choice(["0/1", "7/1", "1/2"])}
+    if k == "wabs":
+        ti, j = rng.choice(teams)
+        return {"kind": k, "team": ti, "j": j, "list": sorted(set(rng.randrange(0, 8) for _ in range(rng.choice([1, 2, 3]))))}
+    if k == "add_worker":
+        nm = c["tasks"][rng.randrange(nt)]["name"]
+        return {"kind": k, "worker": {"skills": {str(nm): rng.choice(["1/1", "2/1", "1/2"])}, "fskills": {}, "cost": rng.choice(["1/1", "3/1"]),
+                                      "solo": False, "abs": [], "mainwp": None}}
+    # a new dependency that keeps the network acyclic: from a task to one it cannot reach backwards
+    reach = {i: set() for i in range(nt)}
+    for (p_, s_, _k) in c["edges"] + c.get("edges_in", []):
+        reach[p_].add(s_)
+    changed = True
+    while changed:
+        changed = False
+        for i in range(nt):
+            new = set()
+            for x in reach[i]:
+                new |= reach[x]
+            if not new <= reach[i]:
+                reach[i] |= new
+                changed = True
+    pairs = [(p_, s_) for p_ in range(nt) for s_ in range(nt) if p_ != s_ and p_ not in reach[s_] and s_ not in reach[p_]]
+    if not pairs:
+        return {"kind": "work", "t": rng.randrange(nt), "val": "2/1"}
+    p_, s_ = rng.choice(pairs)
+    return {"kind": "edge", "p": p_, "s": s_, "k": rng.choice([0, 0, 1, 2, 3])}
+
+
 def gen_cases(rng, n):
     cases = []
     for i in range(n):
@@ -102,6 +167,7 @@ def gen_cases(rng, n):
         c["alt_ranks"].append([list(range(nt - 1, -1, -1)), list(range(nc - 1, -1, -1))])
         c["defaults_probe"] = (i % 10 == 0)
         c["backward_probe"] = rng.choice([1, 2, 3, 4]) if i % 4 == 1 else 0
+        c["edit_probe"] = gen_edit(rng, c) if i % 4 == 2 else None
         cases.append(c)
     return cases
 
